@@ -256,6 +256,29 @@ def check_codec(chk, repo, P):
                 st = st._parent
             rec = isinstance(st, ast.If) and any(isinstance(x, ast.Name) and x.id == "preprocess" for b in st.body for x in ast.walk(b))
             branches[t] = rec
+    # path-wise: whenever the value is a container, the result is rebuilt from preprocess(element) - no path hands a container back as is
+    from .symexpr import Undecidable, show, summarize
+    try:
+        _, ppaths = summarize(pre.node)
+    except Undecidable as e:
+        raise AnalysisError(f"{enc.relpath}:preprocess outside the decidable fragment: {e}")
+    P0 = ("param", 0)
+
+    def container_kind(conds):
+        for c in conds:
+            t = c[1] if c[0] == "truth" else c
+            if t[0] == "call" and t[1] == ("name", "isinstance") and len(t[2]) == 2 and t[2][0] == P0 and c[0] != "not":
+                return show(t[2][1])
+        return None
+
+    for conds, res in ppaths:
+        kind = container_kind(conds)
+        if kind is None or kind not in ("dict", "list", "tuple"):
+            continue
+        recurses = "'preprocess'" in repr(res)
+        chk.require(recurses, R("K4"), f"{enc.relpath}:preprocess", f"every path for a {kind} rebuilds it from preprocess(element)",
+                    f"for a {kind} there is a path ({' and '.join(show(c) for c in conds)[:120]}) that returns {show(res)[:60]} without visiting its elements: tuples nested in it are written as plain JSON lists",
+                    key=f"preprocess:{kind}:unvisited-path")
     for t in ("dict", "list", "tuple"):
         chk.require(branches.get(t) is True, R("K4"), f"{enc.relpath}:preprocess", f"preprocess recurses into {t}",
                     f"preprocess does not recurse into {t}: tuples nested in a {t} are flattened to lists by json", key=f"preprocess:{t}")
@@ -374,8 +397,16 @@ def _check_decode_datetime(chk, rule, dec, dfi):
                 f"decoded datetimes are {short(full, 140)}: the reference is not added back", key=f"{dfi.qualname}:reference")
     chk.require(unit_ok, rule, where, "offsets are rebuilt as timedelta64[<stored unit>]",
                 f"offsets are rebuilt as {short(full, 140)}: not with the stored unit", key=f"{dfi.qualname}:units")
-    float_on_path = "float" in txt
-    chk.require(not float_on_path, rule, where, "no float conversion on the decode path", "a float conversion appears on the datetime decode path", key=f"{dfi.qualname}:float")
+    floaty = []
+    for n in ast.walk(full):
+        if isinstance(n, ast.BinOp) and isinstance(n.op, (ast.Div, ast.Mult, ast.Pow)):
+            floaty.append(short(n, 60))
+        if isinstance(n, ast.Call) and norm(n.func).split(".")[-1] in ("rint", "round", "floor", "ceil", "float", "float64", "divide", "multiply", "true_divide"):
+            floaty.append(short(n, 60))
+        if isinstance(n, ast.Constant) and isinstance(n.value, str) and n.value.startswith(("float", "f8", "<f8", ">f8")):
+            floaty.append(repr(n.value))
+    chk.require(not floaty, rule, where, "offsets go from the stored integers straight into timedelta64[<unit>] (no float arithmetic on the decode path)",
+                f"the decode path contains {floaty[:2]}: 64-bit tick counts pass through float64 and are rounded beyond 2**53 (datetimes not exact to the nanosecond)", key=f"{dfi.qualname}:float")
 
 
 def _check_coercion(chk, rule, repo, enc):
